@@ -60,4 +60,14 @@ CHECKS["C20"] = {
     "note": "Not modelled: which span the compiler chooses at each set_span call site (covered only by the planted-fault programs). Known finding: untokenisable characters are reported at the next token.",
     "design_ref": "DESIGN.md §4 C20",
 }
+CHECKS["C09"] = {
+    "technique": "Lean 4 proof over M-Mod (exactly-once, dependencies-first, termination and order-independence for every dependency function and every hash-map visiting order) + event-level correspondence with the real loader under generated supply schedules",
+    "text": "process_loaded_nodup (no module body runs twice), process_depsFirst (every module runs after all modules it imports), process_terminates (pending.length+1 rounds suffice), "
+            "process_order_independent (any two visiting orders of the FxHashMap give the same loaded set and the same pending set), unprovided_nodup/unprovided_spec (each request once, only for modules neither loaded nor supplied, "
+            "always with an importer) are Lean theorems with the visiting order universally quantified. The model (with M-Path for specifier resolution) is compared with the real prepare/provide_module/step on the sequence of "
+            "NeedImports lists and execution rounds for random DAGs of up to 8 modules under all-at-once, one-at-a-time, random subset/early/duplicate supply policies and all 24 one-at-a-time orders; PROP checks exactly-once, "
+            "deps-first, expected values (named/default/namespace imports, re-exports, live bindings) and schedule-independence on the implementation's trace alone.",
+    "note": "Module bodies are not modelled (values are checked against generator closed forms); live bindings are checked on the implementation only; cyclic graphs are outside the property.",
+    "design_ref": "DESIGN.md §4 C09",
+}
 NOT_YET = {}
